@@ -41,6 +41,9 @@ CHECKS.update({
  "C04": ("exploration","metamorphic runtime monitor: responses before/after edits confined to a foreign location (or an unbound map) must be identical on three storage configurations",
          "For each generated file F builds F' by adding/deleting only records tagged with a foreign location right next to the existing data (same owners, children, apexes as SOA/NS, wildcards, new delegations, glue) and by adding subnets of a map bound to no name; F and F' are compiled to CDB and RocksDB v1/v2 and every generated query from every client not located in the foreign location must get the identical canonical response.",
          "No model of the answers is needed; clients in the foreign location are skipped. Random address selection neutralised with max-answer >= candidates.","4/C04"),
+ "C09": ("exploration","runtime round-trip monitor on the real codec (DecodeLn/MarshalText/MarshalMap) over generated and hand-shaped lines; dump comparison of RocksDB compiled from original vs preprocessed files",
+         "(a) every line of generated files plus hand-shaped lines of all 17 types (escaped separators, wildcard owners, explicit zero fields, subnet and range-point forms) is parsed, printed, parsed again; compiled keys/values and the second print must agree, under CDB-style and RocksDB-style codecs with v1/v2 keys. (b) generated files are preprocessed with the dnsrocks-preproc codec settings and both versions compiled (v1, v2); the raw dumps must be equal multisets.",
+         "Lines the codec rejects are outside the property. Two open findings (explicit SOA serial 0; IPv4-mapped ipv6hint) are suppressed by predicate.","4/C09"),
 })
 BUILT = set(CHECKS)
 ALL = [json.loads(l)["id"] for l in open("properties.jsonl")]
